@@ -972,6 +972,8 @@ class Interp:
             return None
         if isinstance(slf, Sym):
             raise Unsupported(f"bound native method on symbolic {f}")
+        if f is isinstance and len(args) == 2 and not kw and (isinstance(args[1], RepoClass) or (isinstance(args[1], tuple) and any(isinstance(c, RepoClass) for c in args[1]))):
+            return self.isinstance_(args[0], args[1])      # a native value tested against a /repo class
         sym_args = has_sym(args) or has_sym(kw) or any(isinstance(a, (Obj, Closure, BoundMethod, RepoFunc, DictView)) for a in list(args) + list(kw.values()))
         if sym_args:
             r = self.builtin_on_symbolic(f, args, kw, frame)
